@@ -17,6 +17,15 @@ Line-protocol driver for the C06 model (fan-out queue with consumer groups).
       meta write is delayed while Sync+GC are called = create; sync; gc — an Ack whose meta write is
       delayed while Consume is called = ack; consume)
 
+  pending <g> | isempty <g>      (observations: ConsumerGroup.Pending / IsEmpty, Model/FanOutRepl.lean)
+  expire           (queue part of replica/partition.go IsExpire: Sync; GC; every live group that IsEmpty is
+      stopped: answers `ok stopped=<ids> | …`)
+  ackcrash <g> <n> <k>   (Ack n on g; a crash image taken when k of its two meta stores had landed is opened:
+      answers `img[q=<a>/<b>;<g>=<c>/<a>,…] | …` — the image's positions, then the state after the Ack)
+  race2 <g> <g2> <n>     (two stores parked at once: Ack n on g ‖ Consume g ‖ GetOrCreate g2 ‖ Sync;GC
+      = ack; consume; create; sync; gc — answers the Consume result)
+  setappsync <n>         (Sync called in the middle of SetAppendedSeq n = setapp n)
+
 State operations answer `<result> | q=<appended>/<ack> | <g>=<consumed>/<ack> ...` (live groups,
 ascending by name); `get` answers `ok <len>` / `out-of-range` / `not-found`; `pages` answers
 `data=<ids> index=<ids>`.
@@ -27,6 +36,7 @@ fact `Generated.C06.newGroupShape`; with an unknown shape every line answers `ba
 import LinVerif.Util.Proto
 import LinVerif.Model.FanOutPark
 import LinVerif.Model.FanOutFault
+import LinVerif.Model.FanOutRepl
 import LinVerif.Generated.C06
 
 namespace LinVerif.Driver.C06
@@ -159,6 +169,50 @@ def pstepLine (v : Variant) (ps : PState) (ws : List String) : PState × String 
       let r := step v s1 (.consume g)
       ({ ps with s := r.1 }, showRes r.2 ++ " | " ++ showState r.1)
     | _, _ => (ps, "bad-op")
+  | ["pending", g] =>
+    match g.toNat? with
+    | some g =>
+      match LinVerif.Map.lookup ps.s.live g with
+      | some grp => (ps, toString (grp.pending ps.s.q.appended))
+      | none => (ps, "no-group")
+    | none => (ps, "bad-op")
+  | ["isempty", g] =>
+    match g.toNat? with
+    | some g =>
+      match LinVerif.Map.lookup ps.s.live g with
+      | some grp => (ps, toString (grp.isEmpty ps.s.q.appended))
+      | none => (ps, "no-group")
+    | none => (ps, "bad-op")
+  | ["expire"] =>
+    let s' := ps.s.expire v false
+    let before := ps.s.live.map (·.1)
+    let stopped := before.filter (fun k => (LinVerif.Map.lookup s'.live k).isNone)
+    ({ ps with s := s' }, s!"ok stopped={showIds stopped} | " ++ showState s')
+  | ["ackcrash", g, n, k] =>
+    match g.toNat?, n.toInt?, k.toNat? with
+    | some g, some n, some k =>
+      if k > 1 then (ps, "bad-op") else
+      let img := ps.s.ackCrashImage v g n k
+      let r := step v ps.s (.ack g n)
+      ({ ps with s := r.1 }, "img[" ++ ((showState img).replace " | " ";").replace " " "," ++ "] | " ++ showState r.1)
+    | _, _, _ => (ps, "bad-op")
+  | ["race2", g, g2, n] =>
+    match g.toNat?, g2.toNat?, n.toInt? with
+    | some g, some g2, some n =>
+      let s1 := (step v ps.s (.ack g n)).1
+      let r := step v s1 (.consume g)
+      let s3 := (step v r.1 (.create g2)).1
+      let s4 := (step v s3 .sync).1
+      let s5 := (step v s4 .gc).1
+      ({ ps with s := s5 }, showRes r.2 ++ " | " ++ showState s5)
+    | _, _, _ => (ps, "bad-op")
+  | ["setappsync", n] =>
+    -- Sync in the middle of an index reset is the identity (`micro_sync_during_reset_noop`)
+    match n.toInt? with
+    | some n => if n < -1 then (ps, "bad-op") else
+      let r := step v ps.s (.setAppended n)
+      ({ ps with s := r.1 }, showRes r.2 ++ " | " ++ showState r.1)
+    | none => (ps, "bad-op")
   | ["reset"] => (PState.init, "ok")
   | _ =>
     let r := stepLine v ps.s ws
